@@ -181,6 +181,15 @@ def c11_from_ac(ctx, case):
     cmp.poly(a1, A, "ac2poly polynomial vs model")
     cmp.err(e1, P, "ac2poly final error vs r0*prod(1-|k|^2)")
     k1, r01 = lp.ac2rc(arg)
+    # what was returned stays the caller's: another recursion of the same order and kind (the same lags under a Bartlett lag
+    # window: still positive definite) is run while the results are held
+    held_k, held_a = np.array(k1, copy=True), np.array(a1, copy=True)
+    other = np.asarray(r) * (1.0 - np.arange(len(r)) / (len(r) + 1.0))
+    lp.ac2rc(other)
+    lp.ac2poly(other)
+    ctx.check(np.array_equal(np.asarray(k1), held_k) and np.array_equal(np.asarray(a1), held_a),
+              "the arrays returned by ac2rc / ac2poly changed when the functions were called for another autocorrelation of the same order",
+              sig={"clause": "bystander"})
     cmp.rc(k1, k, "ac2rc reflection coefficients vs model")
     ctx.check(complex(r01) == complex(r[0]), "ac2rc zero lag %r != r[0]=%r" % (r01, r[0]))
     if case["k"]["im"] is None and case["form"] != "complex-dtype":
@@ -419,6 +428,40 @@ def c11_lsf_poly(ctx, case):
         i = int(np.argmax(err / tol))
         ctx.fail("poly2lsf(lsf2poly(lsf)) vs lsf: entry %d differs: got %r expected %r (|d|=%.3g, allowed %.3g for a root of condition %.3g)"
                  % (i, back[i], lsf[i], err[i], tol[i], kap[i]))
+
+
+# ----------------------------------------------------------------------------
+# single-precision arguments: taken for what they are
+# ----------------------------------------------------------------------------
+@sub("C11.single", strategy=lp_case(), quick=300, thorough=10000,
+     doc="float32 / complex64 arrays of coefficients (polynomial, autocorrelation, reflection coefficients) give the result of the "
+         "same values in double precision to 1e-3 (cond <= 1e3): complex64 coefficients are complex coefficients")
+def c11_single(ctx, case):
+    k, r, A, P, r0, c = _model(case)
+    _labels(ctx, case, c)
+    if c > 1e3:
+        ctx.exclude("cond > 1e3")
+        return
+    cplx = case["k"]["im"] is not None
+    ctx.nontrivial(cplx and len(k) >= 2)
+    lo_t = np.complex64 if cplx else np.float32
+    hi_t = complex if cplx else float
+    kin = k if cplx else k.real
+    for name, f, arg in (("poly2rc", lambda v: lp.poly2rc(v, P), A), ("poly2ac", lambda v: lp.poly2ac(v, P), A),
+                         ("ac2poly", lambda v: lp.ac2poly(v)[0], r), ("ac2rc", lambda v: lp.ac2rc(v)[0], r),
+                         ("rc2poly", lambda v: lp.rc2poly(v, r0)[0], kin), ("rc2ac", lambda v: lp.rc2ac(v, r0), kin)):
+        lo = np.asarray(arg).astype(lo_t)
+        if name.startswith("poly"):
+            lo[0] = 1
+        hi = lo.astype(hi_t)
+        want = np.asarray(f(hi)).astype(complex)
+        got = np.asarray(f(lo)).astype(complex)
+        ctx.check(got.shape == want.shape, "%s: shape %s for %s input, %s for the same values in double precision" % (name, got.shape, lo.dtype, want.shape),
+                  sig={"fn": name, "clause": "single"})
+        scale = max(1.0, float(np.max(np.abs(want)))) if want.size else 1.0
+        err = float(np.max(np.abs(got - want))) if want.size else 0.0
+        ctx.check(err <= 1e-3 * scale * max(1.0, c), "%s(%s array) differs from the result for the same values in double precision by %.3g (scale %.3g): "
+                  "the coefficients were not taken for what they are" % (name, lo.dtype, err, scale), sig={"fn": name, "clause": "single"})
 
 
 # ----------------------------------------------------------------------------
